@@ -11,6 +11,7 @@ OTHER_TAGS = ['!foo', '!f', 'tag:example.org,2011:x', P + 'x', P + 'Str', P + 'p
 KINDS = ['scalar_empty', 'scalar_arg', 'seq', 'map', 'map_full']
 CONTEXTS = ['root', 'seq_item', 'map_value', 'map_key', 'anchored_aliased', 'merge_value', 'merge_alias', 'merge_list', 'in_set', 'in_omap', 'in_pairs',
             'second_doc', 'depth3', 'alias_key', 'inside_merge_source']
+FULL_CONTEXTS = CONTEXTS + ['in_pytuple', 'in_pydict', 'in_pylist_key']
 SPELLINGS = ['bangbang', 'verbatim', 'handle', 'percent']
 
 
@@ -112,6 +113,12 @@ def render(tag, kind, context, spelling='bangbang'):
         body = 'a:\n  - b:\n      c: ' + node + '\n'
     elif context == 'alias_key':
         body = '- &a ' + (node if (ttext or c) else '""') + '\n- {*a : v}\n'
+    elif context == 'in_pytuple':
+        body = '!!python/tuple [a, ' + node + ' ]\n'
+    elif context == 'in_pydict':
+        body = '!!python/dict {k: ' + node + ' }\n'
+    elif context == 'in_pylist_key':
+        body = '? !!python/tuple [ ' + node + ' ]\n: v\n'
     else:
         return None
     return directives + ('---\n' if directives else '') + body, info
